@@ -4,7 +4,7 @@
 From Coq Require Import List Arith ZArith.
 From EN Require Import Lib.Bytes Frame.Framer Frame.ReadUntil Frame.BufReadUntil Stream.Consumer Stream.SpecDecode
   Frame.Serialize Frame.Convert Frame.JsonRaw Frame.JsonGrammar Frame.ErrSites Frame.Generic
-  Proofs.C07_extra Proofs.C01_generic Proofs.C01_json Proofs.C01_proofs Proofs.Convert_proofs Proofs.Fixed_proofs Proofs.BufFixed_proofs Proofs.Serialize_proofs.
+  Proofs.C07_extra Proofs.C01_generic Proofs.C01_json Proofs.C01_bufsim Proofs.C01_proofs Proofs.Convert_proofs Proofs.Fixed_proofs Proofs.BufFixed_proofs Proofs.Serialize_proofs.
 Import ListNotations.
 
 (* Copying consumer (StreamDataConsumer over read_until): for EVERY list of packets valid for the codec, EVERY way of
@@ -204,6 +204,22 @@ Theorem generic_buffered_word_filebased :
       first_bevent (fb_framer limit load expected) alloc None rounds = Some (BDone p r).
 Proof. intros P limit load expected enc H1 H2 alloc rounds p r. exact (fb_buffered_word_l limit load expected enc H1 H2 alloc rounds p r). Qed.
 Print Assumptions generic_buffered_word_filebased.
+
+(* Buffer-filling consumer over the generic wrapper (file based): every sequence of fitting recv_into fills delivers what
+   the copying consumer delivers (bwrap_simulates, any framer), hence the round trip. *)
+Theorem generic_buffered_roundtrip_filebased :
+  forall (P : Type) (limit : nat) (load : bytes -> lres P) (expected : Z -> bool) (enc : P -> bytes),
+    (forall p, enc p <> []) -> (forall p r, load (enc p ++ r) = LDone p (length (enc p))) ->
+    (forall p q x, enc p = q ++ x -> x <> [] -> load q = LEof (length q)) ->
+    forall (pkts : list P) (fills : list bytes) (sizehint m fuel : nat),
+      let B := bwrap_generic (fb_framer limit load expected) (fb_alloc limit) in
+      fills_fit B sizehint fuel (bcinit B) fills -> concat fills = concat (map enc pkts) ->
+      Forall (fun p => length (enc p) <= m) pkts -> Forall (fun d : bytes => m + length d <= limit) fills ->
+      length (concat fills) < fuel ->
+      snd (bcfills B sizehint fuel (bcinit B) fills) = map RPkt pkts /\
+      (let c' := fst (bcfills B sizehint fuel (bcinit B) fills) in balready c' = 0).
+Proof. intros P limit load expected enc. exact (fb_buffered_roundtrip_l limit load expected enc). Qed.
+Print Assumptions generic_buffered_roundtrip_filebased.
 
 (* Non-vacuity: a concrete codec meets valid_pkt for every packet within the bound, and a 3-packet stream cut inside
    the separator is delivered. *)
